@@ -1,5 +1,6 @@
 from abc import abstractmethod, ABC
 from skglm.utils.validation import check_attrs
+from skglm import _verif
 
 
 class BaseSolver(ABC):
@@ -101,6 +102,9 @@ class BaseSolver(ABC):
         >>> ...
         >>> coefs, obj_out, stop_crit = solver.solve(X, y, datafit, penalty)
         """
+        if _verif.ENABLED:
+            _verif.emit("solve", solver=self, datafit=datafit, penalty=penalty,
+                        X_shape=X.shape, w_init=w_init, Xw_init=Xw_init)
         if run_checks:
             self._validate(X, y, datafit, penalty)
 
